@@ -62,6 +62,15 @@ func (C12) Generate(rng *mrand.Rand, tier string, runIdx uint64) simkit.Plan {
 	p := &Plan{Cfg: Cfg{GCTTL: "15m", GCGran: "30s", Extra: map[string]string{}}}
 	faulty := simkit.Chance(rng, 50)
 	p.Steps = append(p.Steps, Step{Op: "ca.set-config", Text: "72h", Idx: "zero"})
+	if faulty && simkit.Chance(rng, 40) {
+		// the very first initialization is cut short at one of its Raft applies
+		s := Step{Op: "raft.faults"}
+		for i, k := 0, 1+rng.IntN(5); i < k; i++ {
+			s.List = append(s.List, "")
+		}
+		s.List[len(s.List)-1] = simkit.Pick(rng, []string{"not-leader", "not-leader", "lost-reply"})
+		p.Steps = append(p.Steps, s)
+	}
 	p.Steps = append(p.Steps, Step{Op: "ca.init"})
 	uri := func() string {
 		host := caTrustDomain
@@ -74,7 +83,7 @@ func (C12) Generate(rng *mrand.Rand, tier string, runIdx uint64) simkit.Plan {
 			host = "dummy.consul"
 		}
 		dc := simkit.Pick(rng, []string{"dc1", "dc1", "dc1", "dc1", "dc2", "DC1", "dc%31"})
-		svc := simkit.Pick(rng, []string{"web", "web", "api", "we%62", "WEB", "web%2Fx", "a/b", ""})
+		svc := simkit.Pick(rng, []string{"web", "web", "api", "we%62", "WEB", "web%2Fx", "a/b", "", "a+b", "a+%62", "a%20b"})
 		node := simkit.Pick(rng, []string{"n1", "n2", "n%31", "N1"})
 		ns := simkit.Pick(rng, []string{"default", "default", "default", "other", "de%66ault"})
 		switch simkit.Weighted(rng, []int{50, 18, 8, 8, 4, 4, 4, 4}) {
@@ -101,7 +110,7 @@ func (C12) Generate(rng *mrand.Rand, tier string, runIdx uint64) simkit.Plan {
 		for i, n := 0, rng.IntN(4); i < n; i++ {
 			switch rng.IntN(7) {
 			case 0, 1:
-				lines = append(lines, fmt.Sprintf("service %q { policy = %q }", simkit.Pick(rng, []string{"web", "api", "we%62", "WEB", "web/x", "a/b"}), simkit.Pick(rng, []string{"write", "write", "read"})))
+				lines = append(lines, fmt.Sprintf("service %q { policy = %q }", simkit.Pick(rng, []string{"web", "api", "we%62", "WEB", "web/x", "a/b", "a+b", "a b"}), simkit.Pick(rng, []string{"write", "write", "read"})))
 			case 2:
 				lines = append(lines, fmt.Sprintf("service_prefix %q { policy = %q }", simkit.Pick(rng, []string{"", "we", "a"}), simkit.Pick(rng, []string{"write", "read", "deny"})))
 			case 3:
